@@ -103,6 +103,23 @@ TOTAL = [
 ]
 
 
+def socketaddr_ip(c):
+    v = c.deref(c.args[0])
+    if isinstance(v, Enum) and len(v.v) == 1 and v.adt.endswith("SocketAddr"):
+        return [(c.st, Enum("std::net::IpAddr", {next(iter(v.v)): Struct({0: TOP})}))]
+    if isinstance(v, Enum) and v.adt.endswith("SocketAddr") and isinstance(c.args[0], Ref):
+        out = []
+        for i in sorted(v.v):
+            s2 = c.st.copy()
+            c.it.store(s2, c.args[0].cell, c.args[0].path, v.only(i))
+            out.append((s2, Enum("std::net::IpAddr", {i: Struct({0: TOP})})))
+        return out
+    return None
+
+
+M.add(r"^std::net::SocketAddr::ip$|^core::net::socket_addr::SocketAddr::ip$", socketaddr_ip, "ip() of a V4/V6 socket address is a V4/V6 ip address")
+
+
 def total_unknown(c):
     """total external function: no panic; result unknown of its type; &mut pointees unknown; closures escape"""
     return Models.default(c)
@@ -787,7 +804,7 @@ def into(c):
     return None
 
 
-@model(r"^<.* as std::convert::From<.*>>::from$")
+@model(r"^std::convert::num::<impl std::convert::(From|TryFrom)<[ui](8|16|32|64|128|size)> for [ui](8|16|32|64|128|size)>::(from|try_from)$|^std::boxed::convert::<impl std::convert::From<.*> for std::boxed::Box<.*>>::from$|^<.* as std::convert::From<.*>>::from$|^std::convert::num::|^alloc::boxed::convert::")
 def from_(c):
     ta, tr = c.arg_ty(0), c.ret_ty()
     if int_range(ta) is not None and int_range(tr) is not None:
@@ -797,6 +814,17 @@ def from_(c):
     v = c.deref(c.args[0])
     if isinstance(v, Seq) and tr.get("k") == "adt" and tr["path"] in ("std::boxed::Box", "std::vec::Vec", "std::string::String"):
         return [(c.st, Seq(v.len))]
+    if int_range(ta) is not None and tr.get("k") == "adt" and tr["path"] == "std::result::Result":
+        args_ = tr.get("args", [])
+        inner = c.fr.body.ty(args_[0]) if args_ else {}
+        if int_range(inner) is not None:
+            e = c.num(c.args[0], 0)
+            if c.it.fits(c.st, e, inner):
+                return [(c.st, Enum(RESULT, {0: Struct({0: Num(e)})}))]
+            s_ok = c.st.copy()
+            lo_, hi_ = int_range(inner)
+            s_ok.sys.add_range(e, lo_, hi_)
+            return [(s_ok, Enum(RESULT, {0: Struct({0: Num(e)})})), (c.st, Enum(RESULT, {1: Struct({0: TOP})}))]
     return None
 
 
@@ -1029,16 +1057,16 @@ def slice_map_sum(c):
     return [(c.st, c.top_ret())]
 
 
-@model(r"^<std::vec::IntoIter<.*> as std::iter::Iterator>::map::<|^<std::slice::Iter<.*> as std::iter::Iterator>::map::<")
+@model(r"^<std::vec::IntoIter<.*> as std::iter::Iterator>::map::<|^<std::slice::(Iter|IterMut|ChunksExact|Chunks)<.*> as std::iter::Iterator>::map::<")
 def vec_iter_map(c):
     v = c.args[0]
-    if isinstance(v, Iter) and (v.items is not None or c.name.startswith("<std::slice::Iter")):
+    if isinstance(v, Iter) and (v.items is not None or c.name.startswith("<std::slice::")):
         return [(c.st, Iter(v.len, v.enumerated, v.kind, v.chunk, v.items, v.maps + (c.args[1],)))]
     c.escape(c.args[1])
     return [(c.st, c.top_ret())]
 
 
-@model(r"^<std::iter::Map<std::vec::IntoIter<.*>, .*> as std::iter::Iterator>::collect::<std::vec::Vec<")
+@model(r"^<std::iter::Map<std::(vec::IntoIter|slice::(Iter|IterMut|ChunksExact|Chunks))<.*>, .*> as std::iter::Iterator>::collect::<std::vec::Vec<")
 def vec_map_collect(c):
     v = c.args[0]
     if isinstance(v, Iter) and v.items is not None:
